@@ -192,6 +192,40 @@ def object_histories(chk: core.Check, n: int):
             return
 
 
+def integer_columns(chk: core.Check):
+    """helix arrays whose dr / dz columns are integer-typed (tracks starting on their pivot: dr = [[0, 0], [0]]): the moved helix must
+    still describe the same trajectory (the result may not be squeezed back into the integer dtype)"""
+    import awkward as ak
+    import pybes3
+    rng = np.random.default_rng(chk.seed + 66)
+    n = 24
+    h = hc.gen(rng, n)
+    h["dr"] = np.rint(h["dr"] * rng.choice([0, 1, 3], n)).astype(np.int64)
+    h["dz"] = np.rint(h["dz"]).astype(np.int32)
+    h["piv"] = np.rint(h["piv"])
+    h["new"] = h["piv"] + rng.uniform(0.2, 3.7, (n, 3)) * rng.choice([-1, 1], (n, 3))
+    hf = dict(h, dr=h["dr"].astype(float), dz=h["dz"].astype(float))
+    reg = hc.regular_mask(hf)
+    cnt = [n - n // 3, n // 3]
+    mk = lambda a: ak.unflatten(ak.Array(np.array(a, copy=True)), cnt)
+    pivot = ak.zip({"x": mk(h["piv"][:, 0]), "y": mk(h["piv"][:, 1]), "z": mk(h["piv"][:, 2])}, with_name="Vector3D")
+    arr = pybes3.helix_awk(dr=mk(h["dr"]), phi0=mk(h["phi0"]), kappa=mk(h["kappa"]), dz=mk(h["dz"]), tanl=mk(h["tanl"]), pivot=pivot)
+    res = arr.change_pivot(ak.zip({"x": mk(h["new"][:, 0]), "y": mk(h["new"][:, 1]), "z": mk(h["new"][:, 2])}, with_name="Vector3D"))
+    out = {k: ak.to_numpy(ak.flatten(res[k], axis=None)).astype(float) for k in ("dr", "phi0", "kappa", "dz", "tanl")}
+    out["piv"] = np.stack([ak.to_numpy(ak.flatten(res.pivot[c], axis=None)).astype(float) for c in "xyz"], axis=1)
+    r = residuals(hf, out)
+    chk.count(n, key="integer-columns")
+    for name in ("centre", "trajectory", "closest_point"):
+        badm = (r[name] > 1e-9) & reg
+        if badm.any():
+            i = int(np.nonzero(badm)[0][0])
+            chk.failing_input(f"change_pivot (array form, integer-typed dr / dz columns): {name} residual", {"dr": int(h["dr"][i]), "dz": int(h["dz"][i]), "dtypes": {"dr": "int64", "dz": "int32"}, "phi0": float(h["phi0"][i]), "kappa": float(h["kappa"][i]), "tanl": float(h["tanl"][i]),
+                                                                                                             "old_pivot": h["piv"][i].tolist(), "new_pivot": h["new"][i].tolist()},
+                              {"dr": float(out["dr"][i]), "phi0": float(out["phi0"][i]), "dz": float(out["dz"][i]), "residual_rel": float(r[name][i])}, "residual <= 1e-9 (relative to the track scale)",
+                              "the helix parameters before and after a pivot change describe the same trajectory")
+            return
+
+
 def main(chk: core.Check) -> int:
     thorough = chk.tier == "thorough"
     n, n_obj = (40000, 3000) if thorough else (3000, 300)
@@ -208,6 +242,8 @@ def main(chk: core.Check) -> int:
             chk.obligation_broken("correspondence", "Lean Float changePivot vs implementation", str(diffs[:3]))
         fixture_hits(chk)
         object_histories(chk, 400 if thorough else 80)
+        if not chk.failing:
+            integer_columns(chk)
     except core.DriverError as ex:
         chk.obligation_broken("correspondence", "helix driver", str(ex))
     return chk.finish(None)
